@@ -556,6 +556,10 @@ impl Space for Protect {
                 for (enc, nd) in &needles {
                     sink.evaluations += 1;
                     for (name, data) in &all {
+                        // compressed bytes are random-looking: scan them only with needles too long to occur by chance
+                        if name == "<raw zip bytes>" && nd.len() < 6 {
+                            continue;
+                        }
                         if contains_sub(data, nd) {
                             let in_baseline = baseline_parts.iter().any(|(n, d)| n == name && contains_sub(d, nd));
                             if in_baseline {
@@ -676,7 +680,7 @@ fn run(ctx: &Ctx) -> i32 {
             spaces,
             cfg: PoolCfg { chunk: 1, case_timeout: std::time::Duration::from_secs(120), ..Default::default() },
             level: "exploration",
-            rule: "full product password alphabet x {sheet, workbook, revisions} x {no preset, legacy raw hash preset} x {write_writer, write_writer_light} on new_file(); plus three kinds at once with three different passwords (rotations), plus corpus workbooks as hosts. Per assignment: model right after the call (ECMA-376 recomputation H0=H(salt||UTF16LE(pw)), Hi=H(Hi-1||LE32(i)), i=0..spinCount-1 with the STORED algorithm/salt/spinCount reproduces the stored hash; password+'x', '', password minus last char do not; get_password_raw() empty), a second call on a clone (different salt, still verifies), save + reload (all five fields unchanged), raw XML of the saved part (attributes equal the model; no password / workbookPassword / revisionsPassword attribute), and a scan of every inflated zip part and of the raw zip bytes for the password as UTF-8, XML-escaped UTF-8 and UTF-16LE (skipped for passwords shorter than 2 chars, and for a needle that already occurs in the same part of the unprotected package). Space `freshness`: all salts of the run pairwise distinct. distinct_nontrivial = distinct (kind, password, algorithm, spinCount, raw) model observations plus distinct salts".into(),
+            rule: "full product password alphabet x {sheet, workbook, revisions} x {no preset, legacy raw hash preset} x {write_writer, write_writer_light} on new_file(); plus three kinds at once with three different passwords (rotations), plus corpus workbooks as hosts. Per assignment: model right after the call (ECMA-376 recomputation H0=H(salt||UTF16LE(pw)), Hi=H(Hi-1||LE32(i)), i=0..spinCount-1 with the STORED algorithm/salt/spinCount reproduces the stored hash; password+'x', '', password minus last char do not; get_password_raw() empty), a second call on a clone (different salt, still verifies), save + reload (all five fields unchanged), raw XML of the saved part (attributes equal the model; no password / workbookPassword / revisionsPassword attribute), and a scan of every inflated zip part and of the raw zip bytes (needles of >= 6 bytes only there) for the password as UTF-8, XML-escaped UTF-8 and UTF-16LE (skipped for passwords shorter than 2 chars, and for a needle that already occurs in the same part of the unprotected package). Space `freshness`: all salts of the run pairwise distinct. distinct_nontrivial = distinct (kind, password, algorithm, spinCount, raw) model observations plus distinct salts".into(),
             alphabets: json!({
                 "passwords": pws.iter().map(|p| if p.text.chars().count() > 40 { format!("{} chars starting {:?}", p.text.chars().count(), p.text.chars().take(10).collect::<String>()) } else { p.text.clone() }).collect::<Vec<_>>(),
                 "kinds": ["sheet", "workbook", "revisions", "all three with different passwords"],
